@@ -305,6 +305,17 @@ class SymBackend(BackendBase):
             return [at(i) for i in range(n)]
         return SSeq(n, at, label)
 
+    def assume_each(self, n, pred, name="q"):
+        """type invariant: pred(s) for every s in [0, n)"""
+        n = raw(n)
+        if isinstance(n, int):
+            for s in range(n):
+                self.c.assume(raw(core.lift_bool(pred(s))))
+            return
+        q = z3.Int(self.c.fresh(name))
+        body = raw(core.lift_bool(pred(SInt(q))))
+        self.c.assume(z3.ForAll([q], z3.Implies(z3.And(q >= 0, q < zi(n)), zb(body))))
+
     def stub(self, label, **attrs):
         return Stub(label, **attrs)
 
@@ -466,7 +477,7 @@ class SymBackend(BackendBase):
             if symnp.same_dim(da, de) is not True:
                 self.check("%s:shape[%d]" % (name, ax), r_cmp("==", da, de))
         for idx, hy in self.cells(expected.rshape):
-            tag = "" if hy or not idx else "[%s]" % ",".join(map(str, idx))
+            tag = "" if hy or not idx else "@%s" % ",".join(map(str, idx))
             try:
                 a = actual._elem(*[raw(i) for i in idx])
             except IndexError:
@@ -478,7 +489,7 @@ class SymBackend(BackendBase):
 
     def all_cells(self, name, shape, pred):
         for idx, hy in self.cells(shape):
-            tag = "" if hy or not idx else "[%s]" % ",".join(map(str, idx))
+            tag = "" if hy or not idx else "@%s" % ",".join(map(str, idx))
             try:
                 p = pred(*idx)
             except IndexError:
@@ -580,6 +591,11 @@ class ConcreteBackend(BackendBase):
 
     def seq(self, n, at, label="seq"):
         return [at(i) for i in range(int(n))]
+
+    def assume_each(self, n, pred, name="q"):
+        for s in range(int(n)):
+            if not pred(s):
+                raise SkipInput()
 
     def stub(self, label, **attrs):
         import types
